@@ -90,7 +90,7 @@ theorem recWarnings_congr {d d' : Doc} (h : ∀ p, indiOf d' p = indiOf d p) (no
   | indi i => rfl
   | fam f =>
     have h1 : childrenBornBeforeParents d' f = childrenBornBeforeParents d f := by
-      unfold childrenBornBeforeParents
+      unfold childrenBornBeforeParents childrenBornBeforeParentsRaw
       cases f.husb <;> cases f.wife <;> simp [h]
     have h2 : siblingsBornTooClose d' f = siblingsBornTooClose d f := by
       have hh : ∀ a b, siblingHit d' a b = siblingHit d a b := by
@@ -110,13 +110,16 @@ theorem recWarnings_congr {d d' : Doc} (h : ∀ p, indiOf d' p = indiOf d p) (no
 /-- put the smaller pointer first -/
 def sortPair (p : Nat × Nat) : Nat × Nat := if p.1 ≤ p.2 then p else (p.2, p.1)
 
-/-- a sibling warning with the smaller pointer first; other warnings unchanged -/
+/-- what a warning says about people: a pair warning without its family context (which family
+    reports a pair that is listed in several depends on the order of the records) and with the
+    smaller sibling pointer first; other warnings unchanged -/
 def norm : Warning → Warning
-  | .siblingsBornTooClose f a b => if a ≤ b then .siblingsBornTooClose f a b else .siblingsBornTooClose f b a
+  | .siblingsBornTooClose _ a b => if a ≤ b then .siblingsBornTooClose 0 a b else .siblingsBornTooClose 0 b a
+  | .childBornBeforeParent _ p c => .childBornBeforeParent 0 p c
   | w => w
 
 theorem norm_sib (f : Nat) (p : Nat × Nat) :
-    norm (.siblingsBornTooClose f p.1 p.2) = .siblingsBornTooClose f (sortPair p).1 (sortPair p).2 := by
+    norm (.siblingsBornTooClose f p.1 p.2) = .siblingsBornTooClose 0 (sortPair p).1 (sortPair p).2 := by
   simp only [norm, sortPair]
   by_cases h : p.1 ≤ p.2 <;> simp [h]
 
@@ -131,15 +134,120 @@ theorem sortPair_eq_iff {p q : Nat × Nat} : sortPair p = sortPair q ↔ symPair
   · intro h
     split <;> split <;> simp only [Prod.mk.injEq] <;> omega
 
-theorem norm_of_kind {w : Warning} (h : w.kind ≠ .sib) : norm w = w := by
-  cases w <;> simp [norm, Warning.kind] at h ⊢
+theorem norm_kind (w : Warning) : (norm w).kind = w.kind := by
+  cases w <;> simp only [norm]
+  case siblingsBornTooClose f a b => by_cases h : a ≤ b <;> simp [h, Warning.kind]
+  all_goals rfl
 
-theorem map_norm_of_kind {ws : List Warning} (h : ∀ w ∈ ws, w.kind ≠ .sib) : ws.map norm = ws := by
+def isPair (w : Warning) : Bool := w.kind == .cbbp || w.kind == .sib
+
+theorem isPair_norm (w : Warning) : isPair (norm w) = isPair w := by simp [isPair, norm_kind]
+
+theorem norm_of_not_pair {w : Warning} (h : isPair w = false) : norm w = w := by
+  cases w <;> simp [norm, isPair, Warning.kind] at h ⊢
+
+/-- on pair warnings `norm` forgets exactly what `samePair` ignores -/
+theorem samePair_of_norm_eq {w w' : Warning} (h1 : isPair w = true) (h : norm w = norm w') : samePair w w' := by
+  cases w <;> simp [isPair, Warning.kind] at h1
+  case childBornBeforeParent f p c =>
+    cases w' <;> simp only [norm] at h
+    case childBornBeforeParent f' p' c' =>
+      simp only [Warning.childBornBeforeParent.injEq] at h; exact ⟨h.2.1, h.2.2⟩
+    case siblingsBornTooClose f' a b => split at h <;> cases h
+    all_goals cases h
+  case siblingsBornTooClose f a b =>
+    cases w' <;> simp only [norm] at h
+    case siblingsBornTooClose f' a' b' =>
+      simp only [samePair]
+      by_cases h1 : a ≤ b <;> by_cases h2 : a' ≤ b' <;> simp only [h1, h2, if_true, if_false, Warning.siblingsBornTooClose.injEq] at h <;> omega
+    case childBornBeforeParent f' p c => split at h <;> cases h
+    all_goals (split at h <;> cases h)
+
+theorem norm_eq_of_samePair {w w' : Warning} (h : samePair w w') : norm w = norm w' := by
+  cases w <;> cases w' <;> simp only [samePair] at h
+  case childBornBeforeParent.childBornBeforeParent f p c f' p' c' =>
+    obtain ⟨rfl, rfl⟩ := h; rfl
+  case siblingsBornTooClose.siblingsBornTooClose f a b f' a' b' =>
+    simp only [norm]
+    rcases h with ⟨rfl, rfl⟩ | ⟨rfl, rfl⟩
+    · rfl
+    · by_cases h1 : a ≤ b <;> by_cases h2 : b ≤ a <;> simp only [h1, h2, if_true, if_false, Warning.siblingsBornTooClose.injEq] <;> first | omega | (refine ⟨trivial, ?_, ?_⟩ <;> omega)
+
+/-! ### `oncePerPair` and reordering -/
+
+theorem opp_filter_other : ∀ (ws : List Warning) (pc sb : List (Nat × Nat)),
+    (oncePerPairGo ws pc sb).filter (fun w => !isPair w) = ws.filter (fun w => !isPair w) := by
+  intro ws
+  induction ws with
+  | nil => intro pc sb; rfl
+  | cons x ws ih =>
+    intro pc sb
+    cases x <;> simp only [oncePerPairGo]
+    case childBornBeforeParent f p c =>
+      have hp : (!isPair (.childBornBeforeParent f p c)) = false := by simp [isPair, Warning.kind]
+      split
+      · rw [ih, List.filter_cons, hp]; simp
+      · rw [List.filter_cons, List.filter_cons, hp, ih]
+    case siblingsBornTooClose f a b =>
+      have hp : (!isPair (.siblingsBornTooClose f a b)) = false := by simp [isPair, Warning.kind]
+      split
+      · rw [ih, List.filter_cons, hp]; simp
+      · rw [List.filter_cons, List.filter_cons, hp, ih]
+    all_goals
+      rw [List.filter_cons, List.filter_cons, ih]
+
+theorem opp_pairs_nodup (ws : List Warning) :
+    (((oncePerPair ws).filter isPair).map norm).Nodup := by
+  rw [List.nodup_iff_pairwise_ne, List.pairwise_map]
+  have h := ((opp_once ws [] []).1).filter isPair
+  -- `Pairwise.filter` keeps the relation; pair warnings with equal `norm` are the same pair
+  refine List.Pairwise.imp_of_mem ?_ h
+  intro a b ha _ hne e
+  exact hne (samePair_of_norm_eq (List.mem_filter.mp ha).2 e)
+
+theorem mem_opp_pairs (ws : List Warning) (x : Warning) :
+    x ∈ ((oncePerPair ws).filter isPair).map norm ↔ x ∈ (ws.filter isPair).map norm := by
+  simp only [List.mem_map, List.mem_filter]
+  constructor
+  · rintro ⟨w, ⟨hw, hp⟩, rfl⟩
+    exact ⟨w, ⟨(oncePerPair_sublist ws).subset hw, hp⟩, rfl⟩
+  · rintro ⟨w, ⟨hw, hp⟩, rfl⟩
+    cases w <;> simp [isPair, Warning.kind] at hp
+    case childBornBeforeParent f p c =>
+      obtain ⟨f', hf'⟩ := opp_cbbp_kept ws [] [] (by simp) ⟨f, hw⟩
+      exact ⟨_, ⟨hf', by simp [isPair, Warning.kind]⟩, by simp [norm]⟩
+    case siblingsBornTooClose f a b =>
+      obtain ⟨f', hf'⟩ := opp_sib_kept ws [] [] (by simp [pairsHas]) ⟨f, hw⟩
+      rcases hf' with hf' | hf'
+      · exact ⟨_, ⟨hf', by simp [isPair, Warning.kind]⟩, norm_eq_of_samePair (Or.inl ⟨rfl, rfl⟩)⟩
+      · exact ⟨_, ⟨hf', by simp [isPair, Warning.kind]⟩, norm_eq_of_samePair (Or.inr ⟨rfl, rfl⟩)⟩
+
+theorem filter_map_norm (p : Warning → Bool) (hp : ∀ w, p (norm w) = p w) (ws : List Warning) :
+    (ws.filter p).map norm = (ws.map norm).filter p := by
   induction ws with
   | nil => rfl
   | cons w ws ih =>
-    simp only [List.map_cons]
-    rw [norm_of_kind (h w (by simp)), ih (fun w hw => h w (by simp [hw]))]
+    simp only [List.filter_cons, List.map_cons, hp]
+    split <;> simp [ih]
+
+/-- `oncePerPair` commutes with reordering, up to `norm` -/
+theorem opp_perm {ws ws' : List Warning} (h : (ws.map norm).Perm (ws'.map norm)) :
+    ((oncePerPair ws).map norm).Perm ((oncePerPair ws').map norm) := by
+  have split : ∀ l : List Warning, (l.map norm).Perm
+      ((l.filter isPair).map norm ++ (l.filter (fun w => !isPair w)).map norm) := by
+    intro l
+    exact ((List.filter_append_perm isPair l).symm).map norm |>.trans (by rw [List.map_append])
+  refine (split _).trans (List.Perm.trans ?_ (split _).symm)
+  refine List.Perm.append ?_ ?_
+  · rw [List.perm_ext_iff_of_nodup (opp_pairs_nodup ws) (opp_pairs_nodup ws')]
+    intro x
+    rw [mem_opp_pairs, mem_opp_pairs, filter_map_norm isPair isPair_norm, filter_map_norm isPair isPair_norm]
+    exact (h.filter isPair).mem_iff
+  · unfold oncePerPair
+    rw [opp_filter_other, opp_filter_other,
+      filter_map_norm (fun w => !isPair w) (fun w => by simp [isPair_norm]),
+      filter_map_norm (fun w => !isPair w) (fun w => by simp [isPair_norm])]
+    exact h.filter _
 
 /-- which normalised pairs the sibling loop reports only depends on the *set* of children -/
 theorem mem_sorted_pairs (d : Doc) (f : Fam) (x : Nat × Nat) :
@@ -165,14 +273,14 @@ theorem siblings_perm (d : Doc) {f f' : Fam} (he : FamEquiv f f') :
     ((siblingsBornTooClose d f).map norm).Perm ((siblingsBornTooClose d f').map norm) := by
   obtain ⟨hp, _, _, _, hc⟩ := he
   have key : ∀ g : Fam, (siblingsBornTooClose d g).map norm =
-      ((siblingsLoop d g).1.map sortPair).map fun p => Warning.siblingsBornTooClose g.ptr p.1 p.2 := by
+      ((siblingsLoop d g).1.map sortPair).map fun p => Warning.siblingsBornTooClose 0 p.1 p.2 := by
     intro g
     unfold siblingsBornTooClose
     rw [(sibInv d g).map, List.map_map, List.map_map]
     apply List.map_congr_left
     intro p _
     exact norm_sib g.ptr p
-  rw [key f, key f', hp]
+  rw [key f, key f']
   apply List.Perm.map
   rw [List.perm_ext_iff_of_nodup (sorted_pairs_nodup d f) (sorted_pairs_nodup d f')]
   intro x
@@ -202,8 +310,10 @@ theorem famWarnings_perm (d : Doc) (now : Date) {f f' : Fam} (he : FamEquiv f f'
   simp only [recWarnings, famOwn, List.map_append]
   have h1 : ((childrenBornBeforeParents d ⟨p, h, w, c, e⟩).map norm).Perm
       ((childrenBornBeforeParents d ⟨p, h, w, c', e⟩).map norm) := by
-    apply List.Perm.map
     unfold childrenBornBeforeParents
+    apply opp_perm
+    apply List.Perm.map
+    unfold childrenBornBeforeParentsRaw
     exact hc.flatMap_right _
   have h3 : marriedOutOfRange d ⟨p, h, w, c, e⟩ = marriedOutOfRange d ⟨p, h, w, c', e⟩ :=
     marriedFrom_chil d p h w c c' e e 0
